@@ -62,6 +62,23 @@ name in strict mode this follows from the validator: `Proofs/SurviveNames`; for 
 fields nothing in the library checks it — findings F-R1..F-R3 in `notes/agents/C15.md`.) -/
 def SvcSafe (s : Svc) : Prop := ∀ r ∈ RespSpec.own lower ettl s, RecSafe (wireOfRec r) 0
 
+/-- the dry-run encode of the D28 repair accepts `s`: `generate_service_broadcast(info, None).packets()` returns -/
+def DryRun (s : Svc) : Prop := encodesFirst true s = .ok ()
+
+/-- **what is left of the data hypothesis after D28** (review 3): only a service that *passes the dry-run encode* has to have
+encodable own records.  A service the dry run refuses never reaches the registry (`registerE_dryRun`, `updateE_dryRun`: by the
+translated leaves `register_encodes_first` / `update_encodes_first`, which are `true` on the repaired tree — `register_leaf_on`,
+`update_leaf_on` are `rfl` and stop building when D28 is reverted).  The implication itself is a statement about the encoder model alone
+(the dry run writes PTR, SRV, TXT and the address records — every name and every field of `RespSpec.own s` occurs in them; the two
+records it does not write, the enumeration pointer and the NSEC record, reuse the type and the instance name): the converse of
+`packets_total`, not proved here. -/
+def DryRunSound (s : Svc) : Prop := DryRun s → SvcSafe lower ettl s
+
+theorem register_leaf_on : Gen.SurviveApi.register_encodes_first = true := rfl
+theorem update_leaf_on : Gen.SurviveApi.update_encodes_first = true := rfl
+
+theorem SvcSafe.sound {s : Svc} (h : SvcSafe lower ettl s) : DryRunSound lower ettl s := fun _ => h
+
 theorem Full.setReg {d : CS υ} (hI : Full lower ettl Iυ d) {reg' : Registry} (hi : IndexInv lower reg') (hf : AllFresh lower reg')
     (hs : RegSafe lower ettl reg') : Full lower ettl Iυ { d with reg := reg' } := by
   obtain ⟨⟨hC, hT⟩, hF⟩ := hI
@@ -111,9 +128,30 @@ theorem updateE_spec {d d' : CS υ} {s : Svc} (h : updateE lower d s = .ok d') :
       simp only [Except.ok.injEq] at h
       exact ⟨reg', hupd, h.symm⟩
 
-/-- `register`: whatever the validator, the dry-run encode (where the tree has it: D28) and `_add` decide, the block returns and the
-invariant holds afterwards -/
-theorem register_ok {d : CS υ} (hI : Full lower ettl Iυ d) (s : Svc) (strict : Bool) (hs : SvcSafe lower ettl s) :
+/-- a registration that reached the registry passed the dry-run encode (D28; false on a tree without it: `register_leaf_on`) -/
+theorem registerE_dryRun {d d' : CS υ} {s : Svc} {strict : Bool} (h : registerE lower d s strict = .ok d') : DryRun s := by
+  unfold registerE at h
+  split at h
+  · cases h
+  · split at h
+    · cases h
+    · rename_i hdry
+      unfold DryRun
+      rw [← register_leaf_on]
+      exact hdry
+
+theorem updateE_dryRun {d d' : CS υ} {s : Svc} (h : updateE lower d s = .ok d') : DryRun s := by
+  unfold updateE at h
+  split at h
+  · cases h
+  · rename_i hdry
+    unfold DryRun
+    rw [← update_leaf_on]
+    exact hdry
+
+/-- `register`: whatever the validator, the dry-run encode (D28) and `_add` decide, the block returns and the invariant holds
+afterwards; `RegSafe` of the new registry comes from the dry run the service has passed, not from an assumption on every argument -/
+theorem register_ok {d : CS υ} (hI : Full lower ettl Iυ d) (s : Svc) (strict : Bool) (hs : DryRunSound lower ettl s) :
     ∃ d', apiStep lower possible U upd d (.register s strict) = .ok (d', []) ∧ Full lower ettl Iυ d' ∧ d'.cache = d.cache := by
   simp only [apiStep]
   cases hr : registerE lower d s strict with
@@ -128,10 +166,10 @@ theorem register_ok {d : CS υ} (hI : Full lower ettl Iυ d) (s : Svc) (strict :
       subst hadd
       exact ⟨hI.setReg lower ettl Iυ hir
         (allFresh_append lower hsv (fun x hx => hx) hI.1.1.fresh)
-        (regSafe_append lower ettl hsv (fun x hx => hx) hI.1.1.safe hs), rfl⟩
+        (regSafe_append lower ettl hsv (fun x hx => hx) hI.1.1.safe (hs (registerE_dryRun lower hr))), rfl⟩
 
 /-- `update` -/
-theorem update_ok {d : CS υ} (hI : Full lower ettl Iυ d) (s : Svc) (hs : SvcSafe lower ettl s) :
+theorem update_ok {d : CS υ} (hI : Full lower ettl Iυ d) (s : Svc) (hs : DryRunSound lower ettl s) :
     ∃ d', apiStep lower possible U upd d (.update s) = .ok (d', []) ∧ Full lower ettl Iυ d' ∧ d'.cache = d.cache := by
   simp only [apiStep]
   cases hr : updateE lower d s with
@@ -145,7 +183,7 @@ theorem update_ok {d : CS υ} (hI : Full lower ettl Iυ d) (s : Svc) (hs : SvcSa
     subst hupd
     exact ⟨hI.setReg lower ettl Iυ hir
       (allFresh_append lower hsv (fun x hx => (List.mem_filter.mp hx).1) hI.1.1.fresh)
-      (regSafe_append lower ettl hsv (fun x hx => (List.mem_filter.mp hx).1) hI.1.1.safe hs), rfl⟩
+      (regSafe_append lower ettl hsv (fun x hx => (List.mem_filter.mp hx).1) hI.1.1.safe (hs (updateE_dryRun lower hr))), rfl⟩
 
 theorem QShape.purge {q : Reply.Queue} (h : QShape q) (W : List Nat) : QShape (purgeQueue W q) := by
   obtain ⟨h1, h2⟩ := h
@@ -512,8 +550,8 @@ theorem waitTimeout_ok {d : CS υ} (hI : Full lower ettl Iυ d) (id : Nat) :
 
 /-- **what is assumed of the arguments the application passes to the API** (no hypothesis on states) -/
 def ApiSafe : ApiBlock υ → Prop
-  | .register s _ => SvcSafe lower ettl s
-  | .update s => SvcSafe lower ettl s
+  | .register s _ => DryRunSound lower ettl s
+  | .update s => DryRunSound lower ettl s
   | .browserStart cfg _ => TypesSafe cfg.types
   | .lookupStart name _ => NameTextSafe name
   | .addUser u => Iυ u
